@@ -358,6 +358,7 @@ def run(ctx):
                 'and read back; uid, effect, description, type, context keys compared and the original and restored policy '
                 'asked the same 8 derived probes under all four checkers (per-field fits + context); plus generated JSON '
                 'documents with missing / extra / legacy fields decoded by Policy.from_json and by the model')
+    out.rule += '; a tenth of the policies carry a context restriction of a user class that has satisfied() but does not derive from Rule; a stream of policies with a definition field given as one bare string (its characters are the elements)'
     return out
 
 
